@@ -227,7 +227,8 @@ func VH_C14_second_write_vs_answer() {
 		pc.mu.Lock()
 		last := pc.deadlines[len(pc.deadlines)-1]
 		pc.mu.Unlock()
-		verifAssert("C14.second-write.keeps-association-alive", !last.Before(t2.Add(17*time.Second)))
+		// (C19: both sequential orders of the two calls leave the association alive, so must every interleaving)
+		verifAssert("C14.second-write.keeps-association-alive|C19.second-write.result-equals-a-sequential-order", !last.Before(t2.Add(17*time.Second)))
 	}
 	verifReach("C14.second-write.done", true)
 }
